@@ -5,7 +5,9 @@
 // immutable-tags mode (gen.go: concInput, duelInput; operations of one goroutine aimed at the span
 // of another's through calibrated delays; aim.go: pushes, chunked commits and mounts under the
 // digest of what a tag protects with every kind of body and size, and tags of every shape the
-// grammar allows).  Cases are terms of coq/Obs/C14.v's [case].
+// grammar allows; shape.go: graphs in which the walk from the tags meets a digest more than once -
+// the same bytes held as manifest and as blob, shared children, diamonds, subject and entry).
+// Cases are terms of coq/Obs/C14.v's [case].
 package main
 
 import (
@@ -51,8 +53,34 @@ type rival struct {
 
 func (in input) immCfg() bool { return in.Mech == "immtags" || in.UnderImm }
 
+// newRegistry constructs the in-memory registry the way a caller with a Config variable of its
+// own does.  What is handed to a constructor stays the caller's: right after NewWithConfig has
+// returned the variable is overwritten with the opposite configuration and used to construct a
+// second registry, which gets some content of its own and is dropped.  The mode of the first
+// registry is what it was constructed with - there is no call that changes it -, and nothing the
+// other registry is told shows in it.  (The zero configuration is passed as nil every other time:
+// documented to be the same.)
+func newRegistry(immutableTags, nilForZero bool) *ocimem.Registry {
+	var reg *ocimem.Registry
+	cfg := &ocimem.Config{ImmutableTags: immutableTags}
+	if !immutableTags && nilForZero {
+		reg = ocimem.NewWithConfig(nil)
+	} else {
+		reg = ocimem.NewWithConfig(cfg)
+	}
+	*cfg = ocimem.Config{ImmutableTags: !immutableTags}
+	other := memsim.NewExec(ocimem.NewWithConfig(cfg), true)
+	img := imageBytes(config, nil, layer1)
+	for _, o := range []memsim.Op{pushBlob("r1", layer1), pushBlob("r1", config), pushMan("r1", "v1", img, mtImage),
+		pushMan("r1", "latest", img, mtImage), delTag("r1", "v1"), delBlob("r1", layer1)} {
+		other.Run(o)
+	}
+	*cfg = ocimem.Config{ImmutableTags: !immutableTags}
+	return reg
+}
+
 func build(in input) (under *ocimem.Registry, mech ociregistry.Interface, sp *spy) {
-	under = ocimem.NewWithConfig(&ocimem.Config{ImmutableTags: in.immCfg()})
+	under = newRegistry(in.immCfg(), len(in.Ops)%2 == 0)
 	var x ociregistry.Interface
 	switch in.Mech {
 	case "readonly":
@@ -709,7 +737,7 @@ func main() {
 		seq = append(seq, job{sc[n], "scripted"})
 	}
 	rnd := cfg.Rand()
-	n := 420
+	n := 380
 	if cfg.Thorough() {
 		n = 5000
 	}
